@@ -254,7 +254,17 @@ def parse_vspec(path):
         return specs
     cur = None
     target = None
-    for ln, line in enumerate(read(path).split("\n"), 1):
+    raw_lines = []
+    for line in read(path).split("\n"):
+        # `#include <file under spec/>`: one contract text shared between the unit that proves it and the units that assume it
+        if line.startswith("#include "):
+            inc = os.path.join(SPEC, line.split(None, 1)[1].strip())
+            if not os.path.exists(inc):
+                raise Undecided(f"{path}: included contract file {inc} not found")
+            raw_lines += read(inc).split("\n")
+        else:
+            raw_lines.append(line)
+    for ln, line in enumerate(raw_lines, 1):
         if line.startswith("## "):
             key = line[3:].strip()
             if key in specs:
